@@ -1899,11 +1899,11 @@ class MindsDBParser(Parser):
 
     @_('SYSTEM_VARIABLE')
     def variable(self, p):
-        return Variable(value=p.SYSTEM_VARIABLE, is_system_var=True)
+        return Variable(value=str(p.SYSTEM_VARIABLE), is_system_var=True)
 
     @_('VARIABLE')
     def variable(self, p):
-        return Variable(value=p.VARIABLE)
+        return Variable(value=str(p.VARIABLE))
 
     @_(
         'OR REPLACE',
